@@ -12,6 +12,13 @@ Behaviours of a target:
   noback      rsh peer accepts, reads the port of the stderr back channel, never connects back and never
               answers: the worker sits in xrcmd's xpoll for the circuit setup          -> "rcmd: xpoll (setting up stderr): ..."
   talkhang    rsh peer answers, sends one line, keeps the connection open (needs -u)   -> "command timeout"
+  errstall    rsh peer accepts, reads the request, answers with a NON-ZERO status byte and the beginning of an error
+              text, then stalls in the middle of the line: the worker sits in xrcmd's loop that reads the remote
+              error message; the connect timeout must end that too                      -> "<host>: Perm"
+  quietrace   rsh peer answers the handshake and then says nothing, keeps the connection open (needs -u); AND the
+              shim holds this worker's poll() entry until the watchdog's first SIGALRM for it has been sent (the
+              signal finds the worker outside its blocking call and is lost, the poll then blocks): the watchdog
+              must signal again one period later                                         -> "command timeout"
   chatty      local command (exec module) that prints a line every 0.2 s for ever (needs -u): when the deadline
               passes the worker is relaying output, not sitting in xpoll                -> "command timeout"
   dies        local command (exec module) that prints a line and is then killed by a signal (SIGKILL, SIGSEGV)
@@ -39,11 +46,12 @@ def role(addr):
     except (ValueError, IndexError):
         return None
     return ("talk" if 1 <= k <= 6 else "mute" if 7 <= k <= 8 else "talkhang" if 9 <= k <= 10 else
-            "shimmed" if 11 <= k <= 16 else "blackhole" if 17 <= k <= 18 else "noback" if 19 <= k <= 20 else None)
+            "shimmed" if 11 <= k <= 16 else "blackhole" if 17 <= k <= 18 else "noback" if 19 <= k <= 20 else
+            "errstall" if 21 <= k <= 22 else "quietrace" if 23 <= k <= 24 else None)
 
 
 def addrs(net, kind):
-    return [net + str(k) for k in range(1, 21) if role(net + str(k)) == kind]
+    return [net + str(k) for k in range(1, 25) if role(net + str(k)) == kind]
 
 
 class Peer:
@@ -72,7 +80,8 @@ class Peer:
             raise last or OSError("no free 127.9.K.0/24")
 
     def listen_on(self, net):
-        for a in addrs(net, "talk") + addrs(net, "mute") + addrs(net, "talkhang") + addrs(net, "noback"):
+        for a in addrs(net, "talk") + addrs(net, "mute") + addrs(net, "talkhang") + addrs(net, "noback") + \
+                addrs(net, "errstall") + addrs(net, "quietrace"):
             s = socket.socket()
             self.socks.append(s)
             s.setsockopt(socket.SOL_SOCKET, socket.SO_REUSEADDR, 1)
@@ -92,7 +101,7 @@ class Peer:
                 c.connect_ex((a, 514))
                 self.held.append(c)
         for s, a in zip(self.socks, addrs(net, "talk") + addrs(net, "mute") + addrs(net, "talkhang") +
-                        addrs(net, "noback")):
+                        addrs(net, "noback") + addrs(net, "errstall") + addrs(net, "quietrace")):
             threading.Thread(target=self.accept_loop, args=(s, a), daemon=True).start()
 
     def accept_loop(self, s, addr):
@@ -137,7 +146,14 @@ class Peer:
             if role(addr) == "mute":
                 c.recv(1)                   # never answer; wait until pdsh gives up and closes
                 return
+            if role(addr) == "errstall":
+                c.sendall(b"\1Perm")        # error indicator, then the error text stalls in the middle of the line
+                c.recv(1)
+                return
             c.sendall(b"\0")
+            if role(addr) == "quietrace":
+                c.recv(1)                   # says nothing, holds the stream open
+                return
             if role(addr) == "talkhang":
                 c.sendall(("first-%s\n" % addr).encode())
                 c.recv(1)                   # hold the stream open
@@ -233,7 +249,8 @@ def pinned_cases(net=NET):
     behind them), -t only, -u only (connect timeout left at a value no fault needs), both."""
     first = {"hang": addrs(net, "shimmed")[0], "refuse": addrs(net, "shimmed")[3], "mute": addrs(net, "mute")[0],
              "talkhang": addrs(net, "talkhang")[0], "blackhole": addrs(net, "blackhole")[0], "chatty": "c0",
-             "dies": "d00", "dies-segv": "d10", "exits": "x0", "noback": addrs(net, "noback")[0]}
+             "dies": "d00", "dies-segv": "d10", "exits": "x0", "noback": addrs(net, "noback")[0],
+             "errstall": addrs(net, "errstall")[0], "quietrace": addrs(net, "quietrace")[0]}
     talk = addrs(net, "talk")
     out = []
 
@@ -260,6 +277,11 @@ def pinned_cases(net=NET):
     # the stderr back channel of the rsh protocol (xrcmd's circuit setup) with a peer that never connects back
     add("noback", 1, 0, None, "mid")
     add("noback", 2, 2, 1, "first")
+    # the remote side reports an error (non-zero status byte) and stalls in the middle of the message
+    add("errstall", 1, 0, None, "mid")
+    # the watchdog's first SIGALRM for an overdue silent host is sent while its worker is NOT yet inside poll()
+    # (the shim holds the poll entry until then): lost; the next watchdog period must interrupt the poll
+    add("quietrace", 10, 1, None, "mid")
     # mixed transports the other way round: -R exec is the default, one `rsh:` host hangs in connect; each transport's
     # option post-processing runs, the built-in connect timeout (10 s) must still abandon the rsh host
     add("hang", 10, 0, None, "mid")
@@ -277,8 +299,10 @@ def expected_wall(case, refuse=None):
     ct, ut = case["ct"], case["ut"]
     per = 0.5
     for _, kd in case["hosts"]:
-        if kd in ("hang", "mute", "blackhole", "noback"):
+        if kd in ("hang", "mute", "blackhole", "noback", "errstall"):
             per = max(per, ct + WDOG_POLL)
+        elif kd == "quietrace":
+            per = max(per, ut + 2 * WDOG_POLL + 0.5)      # the first signal is lost by construction: one more period
         elif kd == "refuse":
             per = max(per, refuse if refuse is not None else ct + WDOG_POLL)
         elif kd in ("talkhang", "chatty") + TEARDOWN_KINDS:
@@ -312,6 +336,9 @@ def run_case(exe, shim, helper, case, scratch, hard_timeout=None):
         argv += ["-u", str(case["ut"])]
     argv += ["-w", words, helper, "%h", case["token"]]
     env = {"PATH": "/usr/bin:/bin", "LD_PRELOAD": shim, "VERIF_CONNECT_SCRIPT": script}
+    race = [a for a, kd in case["hosts"] if kd == "quietrace"]
+    if race:
+        env["VERIF_POLL_RACE_ADDR"] = race[0]
     t0 = time.time()
     try:
         p = subprocess.run(argv, env=env, stdout=subprocess.PIPE, stderr=subprocess.PIPE, stdin=subprocess.DEVNULL,
@@ -331,7 +358,8 @@ def run_case(exe, shim, helper, case, scratch, hard_timeout=None):
 REPORT = {"hang": (": connect: timed out",), "blackhole": (": connect: timed out",),
           "noback": (": rcmd: xpoll (setting up stderr): Interrupted system call",), "mute": (": read: protocol failure: timed out",),
           "refuse": (": connect: Connection refused", ": connect: timed out"), "talkhang": (": command timeout",),
-          "chatty": (": command timeout",), "immortal": (": command timeout",),
+          "chatty": (": command timeout",), "immortal": (": command timeout",), "quietrace": (": command timeout",),
+          "errstall": (": Perm",),
           "dies": (": ... killed by signal N",), "exits": (": ... exited with exit code 3",)}
 
 
@@ -384,7 +412,7 @@ def judge(case, r, peer, slack):
             want = " | ".join(a + w for w in REPORT[kd])
             # the property: reported on stderr under its own name -- any line with pdsh's prefix that names the
             # host; the wording (REPORT = today's texts, for the message below only) is not part of it
-            if not any(re.match(r"^pdsh@[^:]*: %s: \S" % re.escape(a), l) for l in errl):
+            if not any(re.match(r"^(pdsh@[^:]*: )?%s: \S" % re.escape(a), l) for l in errl):
                 fun.append(("real:not-reported:" + kd, "%s (%s): no line `...%s` on stderr; stderr was %r" %
                             (a, kd, want, r["stderr"][-400:])))
     bound = expected_wall(case)
